@@ -61,13 +61,13 @@ Arith(op, x, y) ==
    rational SURROGATES that share with the real function exactly the facts a
    computer algebra system applies automatically (parity, value at 0), so that
    "the right function is applied to the right argument" is decided exactly:
-       sin  ~  q / (1 + q^2)      odd,  0 at 0
+       sin  ~  q / (3 + q^2)      odd,  0 at 0   (not q/(1+q^2): that one is invariant under q -> 1/q)
        cos  ~  1 / (1 + q^2)      even, 1 at 0
        tan  ~  q / (2 + q^2)      odd,  0 at 0
    The binding substitutes the same surrogates for the function applications
    that remain in the evaluated expressions.  abs is exact.                    *)
 Fun(f, q) ==
-    CASE f = "sin" -> RDiv(q, RAdd(One, RMul(q, q)))
+    CASE f = "sin" -> RDiv(q, RAdd(FromInt(3), RMul(q, q)))
       [] f = "cos" -> RDiv(One, RAdd(One, RMul(q, q)))
       [] f = "tan" -> RDiv(q, RAdd(FromInt(2), RMul(q, q)))
       [] f = "abs" -> RAbs(q)
